@@ -14,7 +14,7 @@ class C08(ProgCheck):
     prop = "C08"
     flag = "c08"
     level = "exploration"
-    flavours = ["ser", "ser-asan", "par"]
+    flavours = ["ser", "ser-asan", "par", "par-asan"]
     assumptions = [
         "equality is on a canonical form: one record per triangle (original ID, flags, run transform with an absent transform "
         "read as identity, face ID, three corners with position bits, property bits and the tangent of the halfedge leaving the "
